@@ -10,13 +10,15 @@ in : `narrow <V> <cond> <0|1>`            → the narrowed type (s-expression)
      `match <V> (<pat>…) <i>`            → type of the subject in the body of case i (i = #cases: fall-through)
      `matchafter <V> (<pat>…)`           → type of the subject after the statement (no body leaves)
      `matchcheck <V> (<pat>…) <o>`       → `<o∈V><patOk><o∈body of the case that runs><o∈after> <case index> D=<classes|->`
+     `gmatch <V> ((case <pat> <bcond|->)…) <i>` / `gmatchafter …` / `gmatchcheck <V> (cases) <o> <o_other> (<bit>…)`
+                                           → the same for cases with guards, in an environment
      `bool <V>`                           → Boolability name of `get_boolability`
      `verdict <V> <o>`                    → `<Boolability> <truthy o> D=<classes|->`
      `holds <cond> <o>`                   → `<condOk><holds>`
      `truthy <o>` | `len <o>`             → `0|1` | `n|-`
 out: one line per input line; `bad-op` if unparseable.
 conds: (isinst c…) (issub c…) (is O) (isnot O) (eq O) (ne O) (in O) (notin O) truthy (len op n) (lenrev op n)
-       (typeis T) (typeguard T) (mclass c) (ainst c) (ais O);  bconds: cond | (other cond) | (opq i) | (not B) | (and B…) | (or B…)
+       (typeis T) (typeguard T) (mclass c) (ainst c) (ais O);  bconds: cond | (other cond) | (cap cond) | (opq i) | (not B) | (and B…) | (or B…)
      `checkbe <V> <bcond> <0|1> <o> <o_other> (<bit>…)` = `checkb` in an environment
 pats : (msingle O) (mvalue O) (mclass c) mwild (mor P…)
 -/
@@ -55,6 +57,7 @@ def toCond : Sexp → Option Cond
 mutual
 def toBCond : Sexp → Option BCond
   | .node [.atom "other", c] => (toCond c).map .other
+  | .node [.atom "cap", c] => (toCond c).map .capture
   | .node [.atom "opq", .atom i] => i.toNat?.map .opaque
   | .node [.atom "not", b] => (toBCond b).map .not
   | .node (.atom "and" :: bs) => (toBConds bs).map .and
@@ -77,6 +80,15 @@ def toPats : List Sexp → Option (List Pat)
   | [] => some []
   | p :: ps => do some ((← toPat p) :: (← toPats ps))
 end
+
+def toCases : List Sexp → Option (List MCase)
+  | [] => some []
+  | .node [.atom "case", p, .atom "-"] :: cs => do some (⟨← toPat p, none⟩ :: (← toCases cs))
+  | .node [.atom "case", p, g] :: cs => do some (⟨← toPat p, some (← toBCond g)⟩ :: (← toCases cs))
+  | _ => none
+
+def toEnv (oy : Obj) (bits : List Sexp) : Env :=
+  { other := oy, bits := bits.map fun s => match s with | .atom "1" => true | _ => false }
 
 def showD : List String → String
   | [] => "-"
@@ -133,6 +145,22 @@ def handle (line : String) : String :=
       b2s (mem tbl o v) ++ b2s (Pat.okAll tbl ps o) ++ b2s (mem tbl o (matchBody tbl T v ps i)) ++
         b2s (mem tbl o (matchAfter tbl T v ps)) ++ " " ++ toString i ++ " D=" ++ showD (dMatch tbl T v ps i o)
     | _, _, _ => "bad-op"
+  | some [.atom "gmatch", v, .node cs, .atom i] =>
+    match v.toTy, toCases cs, i.toNat? with
+    | some v, some cs, some i => (gmatchBody tbl T v cs i).show
+    | _, _, _ => "bad-op"
+  | some [.atom "gmatchafter", v, .node cs] =>
+    match v.toTy, toCases cs with
+    | some v, some cs => (gmatchAfter tbl T v cs).show
+    | _, _ => "bad-op"
+  | some [.atom "gmatchcheck", v, .node cs, o, oy, .node bits] =>
+    match v.toTy, toCases cs, o.toObj, oy.toObj with
+    | some v, some cs, some o, some oy =>
+      let ρ := toEnv oy bits
+      let i := gfirstMatch tbl ρ cs o
+      b2s (mem tbl o v) ++ b2s (gcasesOk tbl ρ cs o) ++ b2s (mem tbl o (gmatchBody tbl T v cs i)) ++
+        b2s (mem tbl o (gmatchAfter tbl T v cs)) ++ " " ++ toString i ++ " D=" ++ showD (dGMatch tbl T v cs i o)
+    | _, _, _, _ => "bad-op"
   | some [.atom "verdict", v, o] =>
     match v.toTy, o.toObj with
     | some v, some o => (getBool tbl T v).name ++ " " ++ b2s (truthy o) ++ " D=" ++ showD (dVerdict tbl T v o)
